@@ -23,8 +23,8 @@ func TestC06(t *testing.T) {
 		Rule:        "case = one scenario with concurrent callers whose requests are merged and split across batches, an export outcome script and caller cancellations/deadlines, run in a synctest bubble. Layer 'outcomes' takes a base scenario with k<=6 exports and runs ALL 2^k success/failure assignments of its export sequence; layer 'cancel' places a cancellation of one request at every distinct virtual instant of a base scenario's event log (before enqueue, while buffered, while exporting, after) and at +-1ns around it; layer 'random' samples scenarios with PRNG scripts and hook delays. Oracle (offline, over the boundary log): early_return=false and own context alive: ret follows the export_end of every export that carried one of its uids, all uids were exported, err==nil iff all those exports returned nil, else errors.Is(err, e) for every failing export e; own context ended first: ret at the same virtual instant with errors.Is(err, ctx.Err()), items at most once; early_return=true: nil at the instant the request was queued. A call that has not returned one hour of virtual time after the last scripted activity, or a bubble deadlock, is a violation. Non-trivial = a request spread over >=2 batches or a batch serving >=2 requests with >=1 failing export. Distinct = (config, requests, failure script, cancel point).",
 		Assumptions: append([]string{"'promptly' is restated as: zero virtual time after the context ended (no caller-side hook delays in scenarios with cancellations)", "export outcomes are assigned by arrival order at the next consumer"}, bpAssumptions...),
 		Gates: map[string]map[string]int{
-			"quick":    {"scenarios": 500, "requests_spread_over_2+_batches": 100, "requests_with_failing_export": 100, "requests_cancelled_before_completion": 40, "batches_serving_2+_requests": 100, "outcome_assignments_enumerated": 100},
-			"thorough": {"scenarios": 15000, "requests_spread_over_2+_batches": 3000, "requests_with_failing_export": 3000, "requests_cancelled_before_completion": 1000, "batches_serving_2+_requests": 3000, "outcome_assignments_enumerated": 3000},
+			"quick":    {"scenarios": 500, "requests_spread_over_2+_batches": 100, "requests_with_failing_export": 100, "requests_cancelled_before_completion": 40, "batches_serving_2+_requests": 100, "outcome_assignments_enumerated": 100, "calls_that_blocked_on_a_full_shard_channel": 20},
+			"thorough": {"scenarios": 15000, "requests_spread_over_2+_batches": 3000, "requests_with_failing_export": 3000, "requests_cancelled_before_completion": 1000, "batches_serving_2+_requests": 3000, "outcome_assignments_enumerated": 3000, "calls_that_blocked_on_a_full_shard_channel": 300},
 		},
 		ExhaustiveLayers:   []string{"outcomes (all 2^k failure assignments for k<=6 exports)", "cancel (every distinct virtual instant of the base run, +-1ns)"},
 		HangIsViolationFor: []string{"C06"},
@@ -78,6 +78,43 @@ func TestC06(t *testing.T) {
 		post(c, run, err, "random")
 		if c.Idx < 30 {
 			c.Sample(sc.Describe())
+		}
+	})
+	// back-pressure: max_concurrency exports in flight and slow, the shard loop parked on the limiter,
+	// the shard channel (capacity NumCPU) full, and victims blocked on the hand-off whose contexts end
+	r.Layer("backpressure", e.Pick(24, 360), func(c *vc.Case) {
+		sc := &Scenario{Sig: Signal(c.R.IntN(3)), HookSeed: c.R.Uint64(), Shutdown: 0}
+		sc.Cfg = Cfg{SendBatchSize: uint32(c.R.IntN(2)), SendBatchMaxSize: 0, Timeout: pickD(c.R, 0, time.Second), MaxConcurrency: uint32(1 + c.R.IntN(2)), EarlyReturn: c.R.IntN(2) == 0}
+		slow := pickD(c.R, 5*time.Second, 30*time.Second)
+		sc.Latency = []time.Duration{slow}
+		n := int(sc.Cfg.MaxConcurrency) + 1 + runtime.NumCPU() + 2
+		for i := 0; i < n; i++ {
+			sc.Reqs = append(sc.Reqs, &ReqSpec{Caller: i, Req: 0, At: time.Duration(i) * time.Nanosecond, CtxGroup: -1, CancelAt: -1, Deadline: -1, Res: genShape(c.R, sc.Sig, 1+c.R.IntN(3))})
+		}
+		nv := 1 + c.R.IntN(3)
+		for v := 0; v < nv; v++ {
+			q := &ReqSpec{Caller: n + v, Req: 0, At: time.Microsecond, CtxGroup: -1, CancelAt: -1, Deadline: -1, Res: genShape(c.R, sc.Sig, 1+c.R.IntN(3))}
+			if c.R.IntN(3) == 0 {
+				q.Deadline = pickD(c.R, time.Millisecond, time.Second, slow/2)
+			} else {
+				q.CancelAt = pickD(c.R, time.Millisecond, time.Second, slow/2, slow+time.Millisecond)
+			}
+			sc.Reqs = append(sc.Reqs, q)
+		}
+		sc.Label = "backpressure"
+		run := NewRun(sc, c.R.Uint64())
+		var err error
+		runBubble(t, func() { _, err = run.Exec() })
+		ix := post(c, run, err, "backpressure")
+		blocked := 0
+		for _, q := range ix.reqs {
+			if q.call != nil && (q.enq == nil || q.enq.VT > q.call.VT) {
+				blocked++
+			}
+		}
+		c.Count("calls_that_blocked_on_a_full_shard_channel", int64(blocked))
+		if c.Idx < 6 {
+			c.Sample(map[string]any{"layer": "backpressure", "callers": len(sc.Reqs), "victims": nv, "calls_blocked_on_hand_off": blocked, "config": sc.Cfg.String(), "export_latency": slow.String()})
 		}
 	})
 	r.Layer("outcomes", e.Pick(40, 600), func(c *vc.Case) {
